@@ -33,7 +33,7 @@ PROP = dict(
 )
 
 MANIFEST = dict(
-    text="Coq (14 theorems, closed under the global context): truth_equiv / truth_equiv_bounded (a forced win under the third-repetition "
+    text="Coq (15 theorems, closed under the global context): truth_equiv / truth_equiv_bounded (a forced win under the third-repetition "
          "rule = membership in the history-free attractor, any game, with a depth bound and positions identified by Position.Equal); "
          "pn_invariant (every node of every tree the PN search loop of the code-shaped model Pn.v reaches: proof number 0 -> forced win, "
          "disproof number 0 -> not won on its line of play within MaxDepth) and pn_verdict_sound for the entry point pn_run (proven -> "
@@ -44,7 +44,8 @@ MANIFEST = dict(
          "their second-level numbers, ancestors of a node left unsolved not recomputed, iterations resuming at the node where "
          "updateAncestors stopped), entry point pn2_run, for every threshold, either setting of the switch, any fuel; pn2_off_is_pn: with the switch off the PN-squared "
          "model returns exactly what the plain model returns (tree, counters, verdict, move) - the re-descent from the root of Pn.v and the "
-         "resumption at `current` of Pn2.v / the code are the same computation without PN2; dfpn_proven_sound over the code-shaped model Dfpn.v (thresholds, table with "
+         "resumption at `current` of Pn2.v / the code are the same computation without PN2; pn2_no_impossible_stop (the two defensive stops "
+         "of Pn2.v are dead code); dfpn_proven_sound over the code-shaped model Dfpn.v (thresholds, table with "
          "work-based replacement, killer moves, immediate-threat shortcut, repetition) under explicit hypotheses (no hash collision on the "
          "positions of the run, C19, a live position has a move), also for a reused solver; dfpn_disproven_sound for runs that met no "
          "repetition. The extracted models of prove/pn.go and prove/dfpn.go (incl. one solver reused over several positions) are replayed "
@@ -55,5 +56,5 @@ MANIFEST = dict(
     note="Trusted: Coq kernel, extraction, transcription of prove/pn.go (Pn.v, Pn2.v) and prove/dfpn.go (validated by execution), generators, the "
          "retrograde oracle (uses the rules engine to enumerate the graph). Not proved: DFPN disproven for runs with repetitions "
          "(graph-history interaction; hunted by the oracle on the cyclic region of the solved graphs), the move returned by DFPN, "
-         "that the two cannot-happen stops of Pn2.v never occur (reported as mismatches if they do), and the congruence of Position.Equal that links the PN theorem's line-of-play truth to the attractor (the two "
+         "and the congruence of Position.Equal that links the PN theorem's line-of-play truth to the attractor (the two "
          "_partial PN corollaries and their two PN-squared twins); the DFPN theorems carry NoCollision / C19 as hypotheses.")
